@@ -89,6 +89,9 @@ def name_obligation(ob, cwd):
     m2 = re.match(r'lemma (\w+)', d)
     if m2:
         name = m2.group(1)
+    m3 = re.match(r'bounded: (.+)$', d)
+    if m3:
+        name = 'bounded_' + re.sub(r'\W+', '_', m3.group(1)).strip('_')
     return name, f, ln, text.strip()
 
 
